@@ -31,7 +31,7 @@ func init() { register("C14", checkC14) }
 type c14Case struct {
 	Type   string            `json:"type"`
 	Seed   int64             `json:"seed"`
-	Mode   string            `json:"mode"` // edits | independent
+	Mode   string            `json:"mode"` // edits | independent | dense | split
 	Edits  []string          `json:"edits"`
 	Device string            `json:"device"`
 	Files  map[string]string `json:"files"`
@@ -66,8 +66,88 @@ func genC14(kind string, seed int64) *c14Case {
 		} else if kind == "ios" {
 			d.Routes = other.Routes
 		}
-	} else {
+	} else if rng.Intn(2) == 0 {
 		d, c.Edits = gen.Device(t, 1+rng.Intn(5), false)
+	} else {
+		// Several interacting line edits inside the longest ACL.
+		c.Mode = "dense"
+		d, _ = gen.Device(t, 0, false)
+		var a *mcisco.GACL
+		for _, x := range d.ACLs {
+			if a == nil || len(x.Lines) > len(a.Lines) {
+				a = x
+			}
+		}
+		if a != nil {
+			// Lengthen short ACLs so that blocks can be split twice.
+			for want := 7 + rng.Intn(5); len(a.Lines) < want; {
+				i := rng.Intn(len(a.Lines))
+				a.Lines = append(a.Lines[:i:i], append([]string{gen.ACE(d)}, a.Lines[i:]...)...)
+			}
+			a.Lines = mcisco.DedupLines(a.Lines, kind == "ios")
+			for _, ta := range t.ACLs {
+				if ta.Name == a.Name {
+					ta.Lines = append([]string{}, a.Lines...)
+				}
+			}
+			if rng.Intn(2) == 0 {
+				for n := 3 + rng.Intn(4); n > 0; n-- {
+					gen.LineEdit(d, a)
+				}
+			} else {
+				// Aimed at block handling: the target ACL is one long
+				// block of one action with two or three interior lines
+				// of the other action; those are new in the target, and
+				// one or two old lines move.
+				c.Mode = "split"
+				x, y := "permit", "deny"
+				if rng.Intn(4) == 0 {
+					x, y = y, x
+				}
+				withAction := func(act string) string {
+					w := strings.Fields(gen.ACE(d))
+					w[0] = act
+					return strings.Join(w, " ")
+				}
+				var tl []string
+				for n := 6 + rng.Intn(5); n > 0; n-- {
+					tl = append(tl, withAction(x))
+				}
+				tl = mcisco.DedupLines(tl, kind == "ios")
+				dl := append([]string{}, tl...)
+				for n := 2 + rng.Intn(2); n > 0 && len(tl) > 2; n-- {
+					i := 1 + rng.Intn(len(tl)-1)
+					tl = append(tl[:i:i], append([]string{withAction(y)}, tl[i:]...)...)
+				}
+				last := a.Lines[len(a.Lines)-1]
+				tl = mcisco.DedupLines(append(tl, last), kind == "ios")
+				dl = append(dl, last)
+				for n := 1 + rng.Intn(2); n > 0 && len(dl) > 3; n-- {
+					i, j := rng.Intn(len(dl)-1), rng.Intn(len(dl)-2)
+					l := dl[i]
+					dl = append(dl[:i:i], dl[i+1:]...)
+					dl = append(dl[:j:j], append([]string{l}, dl[j:]...)...)
+				}
+				if rng.Intn(3) == 0 {
+					// One splitter already on the device.
+					for _, l := range tl {
+						if strings.HasPrefix(l, y+" ") && l != last {
+							k := rng.Intn(len(dl))
+							dl = append(dl[:k:k], append([]string{l}, dl[k:]...)...)
+							break
+						}
+					}
+				}
+				a.Lines = dl
+				for _, ta := range t.ACLs {
+					if ta.Name == a.Name {
+						ta.Lines = tl
+					}
+				}
+			}
+			a.Lines = mcisco.DedupLines(a.Lines, kind == "ios")
+			c.Edits = []string{"acl-dense-edits"}
+		}
 	}
 	c.Device = d.Text(true)
 	c.Files = map[string]string{"router": t.Text(false)}
